@@ -693,10 +693,19 @@ impl File {
             return Ok(false);
         }
         let newstamp = self.read_stamp(v)?;
+        // The same comparison as the builder makes before it treats a generated
+        // file as edited by hand: only mtime and size count.  A difference in
+        // inode, ctime, mode or owner alone (a copied or chmod'ed tree) leaves
+        // the file a target: the builder will rebuild it, so it must stay
+        // visible to redo-ood and redo-targets.
+        let as_we_left_it = match self.stamp.as_ref() {
+            Some(oldstamp) => !Stamp::detect_override(oldstamp, &newstamp),
+            None => false,
+        };
         if self.is_generated
             && (!self.is_failed(v) || !newstamp.is_missing())
             && !self.is_override
-            && self.stamp.as_ref() == Some(&newstamp)
+            && as_we_left_it
         {
             // Target is as we left it.
             return Ok(false);
